@@ -178,6 +178,12 @@ class Tools:
         shutil.rmtree(d, ignore_errors=True)
         return res, info
 
+    def model_sizes(self, decls):
+        rcm, om, em = vlib.run_lines(self.model, [G.ty_text(t) for t in decls])
+        if rcm != 0 or len(om) != len(decls):
+            raise vlib.BuildError('model driver failed: rc=%d %s' % (rcm, em[-500:]))
+        return [int(o.split()[1]) for o in om]
+
     def model_classes(self, decls):
         pres = ' '.join('%d,%d' % p for p in G.PRE_ARGS)
         rcm, om, em = vlib.run_lines(self.model, ['K %s | %s' % (pres, G.ty_text(t)) for t in decls])
@@ -519,7 +525,7 @@ def align16_witness(chk, tools):
                     '%s after %d longs' % (ALIGN16_WITNESS, G.PRE_ARGS[idx][0]))
 
 
-PASS_DIRS = 'arARvVmM'
+PASS_DIRS = 'arARvVmMn'
 
 
 def pass_failures(tools, decls, modes=('-ei', '-eg')):
@@ -560,7 +566,7 @@ def passing_part(chk, tools, decls, label, modes=('-ei', '-eg')):
         chk.count('P ' + G.ty_text(t), nontrivial=True, n=len(PASS_DIRS) * len(modes))
     chk.dist('passing_runs', 'ok', len(PASS_DIRS) * len(modes) * len(use) - len(bad))
     chk.dist('passing_runs', 'BAD', len(bad))
-    chk.log('%s: %d aggregates x 8 directions x %s: %s' % (label, len(use), '/'.join(modes), '%d failures' % len(bad) if bad else 'all intact'))
+    chk.log('%s: %d aggregates x %d directions x %s: %s' % (label, len(use), len(PASS_DIRS), '/'.join(modes), '%d failures' % len(bad) if bad else 'all intact'))
     seen = set()
     for i, mode, d, what in bad[:4]:
         t = use[i]
@@ -579,7 +585,7 @@ def passing_part(chk, tools, decls, label, modes=('-ei', '-eg')):
         seen.add(txt)
         chk.finding('passing:%s' % txt, dict(kind='passing', decl=txt, original=G.ty_text(t), mode=mode, direction=d, what=what,
                                              prefix=list(G.PRE_ARGS[pos]), index=pos, info=info),
-                    'aggregate does not arrive intact between c2m (%s) and gcc code, direction %s (a/r/v/m: c2m caller, A/R/V/M: gcc caller, v/V variadic, '
+                    'aggregate does not arrive intact between c2m (%s) and gcc code, direction %s (a/r/v/m/n: c2m caller, A/R/V/M: gcc caller, r/R/n returned value, v/V variadic, '
                     'm/M mixed signature %s [1: = result through the hidden pointer; l i c p f d x scalars before it]; '
                     'prefix %d longs %d doubles): %s' % (mode, d, '%d:%s' % G.MIX_SIGS[pos % len(G.MIX_SIGS)], G.PRE_ARGS[pos][0], G.PRE_ARGS[pos][1], txt))
     return bad
@@ -719,6 +725,17 @@ def run(chk):
         pb, pper = (1, 180) if quick else (12, 400)
         for b in range(pb):
             passing_part(chk, tools, gen_small(chk, pper, 'passing%d' % b), 'passing batch %d' % b)
+        # every size 1..17 (and a few larger ones), every class: the return path picks its access types by sizeof
+        for b in range(1 if quick else 6):
+            nds = G.ret_size_decls(chk.rng('retsize%d' % b), 3 if quick else 8)
+            ds = [t for _, t in nds]
+            for (n, t), sz in zip(nds, tools.model_sizes(ds)):
+                chk.dist('sized_aggregates(sizeof)', '%02d' % sz)
+                if sz != n:
+                    chk.finding('harness:sized', dict(decl=G.ty_text(t), want=n, model=sz),
+                                'the generator of aggregates of an exact size is wrong about ' + G.ty_text(t), no_input=True)
+            classify_part(chk, tools, ds, 'sized aggregates %d (classification)' % b)
+            passing_part(chk, tools, ds, 'sized aggregates %d' % b)
         libc_part(chk, tools)
         gnuext_part(chk, tools, 150 if quick else 1500)
         if not quick:
